@@ -142,8 +142,9 @@ spec("os_mix",
      fw={(0, 1): ["ssh", "smb"], (1, 0): [], (1, 2): ["ssh"], (2, 1): ["smb"]},
      sens={(2, 0): 12.5}, step_limit=3, bounds=(5, 3), scan_costs=(1, 0.5, 2, 0),
      extra=[X("subnet_scan", (1, 0), cost=1), X("process_scan", (1, 0), cost=1),
-            X("service_scan", (2, 0), cost=1), X("exploit", (2, 0), cost=1, prob=1.0, srv="ssh", access=R,
-                                                name="x_e_ssh_root")])
+            X("service_scan", (2, 0), cost=1), X("os_scan", (2, 0), cost=1),
+            X("exploit", (2, 0), cost=1, prob=1.0, srv="ssh", access=R, name="x_e_ssh_root"),
+            X("privesc", (1, 0), cost=1, prob=1.0, proc="tomcat", os="linux", access=R, name="x_pe_root")])
 
 # --- chain of four subnets, three sensitive hosts, discovery values, no step limit
 spec("chain",
